@@ -150,8 +150,36 @@ def improve_reload_histories(draw):
     return spec
 
 
+@st.composite
+def compressed_cases(draw):
+    """The reusable optimizer of the *compressed* family: the cap chi is part
+    of the question, so a tree served from the cache must carry it like the
+    tree that was stored."""
+    net = draw(
+        gen.networks(
+            min_n=3, max_n=8, allow_repeat=False, allow_scalar=False, connected=True,
+            volume_limit=2**40, max_dim=4, allow_size1=False,
+        )
+    )
+    cnt = {}
+    for t in net["inputs"]:
+        for ix in t:
+            cnt[ix] = cnt.get(ix, 0) + 1
+    for ix, c in cnt.items():
+        if c == 1 and ix not in net["output"]:
+            net["output"].append(ix)
+    return {
+        "kind": "hyperc", "net": net, "chi": draw(st.sampled_from([1, 2, 3, 4])),
+        "directory": draw(st.booleans()), "hash_method": draw(st.sampled_from(["a", "a", "b"])),
+        "how": draw(st.sampled_from(["same_object", "new_object", "new_object"])),
+        "max_repeats": draw(st.integers(1, 3)),
+    }
+
+
 def strategy(tier, sub=None):
-    return st.integers(0, 3).flatmap(lambda i: improve_reload_histories() if i == 0 else histories())
+    return st.integers(0, 15).flatmap(
+        lambda i: compressed_cases() if i == 0 else improve_reload_histories() if i < 5 else histories()
+    )
 
 
 def budget(tier, sub=None):
@@ -288,7 +316,77 @@ def fingerprint_b(inputs, output, sizes):
     return len(inputs), tuple(sorted((tuple(sorted(nodes)), sizes[ix]) for ix, nodes in edges.items()))
 
 
+def run_compressed(spec):
+    import cotengra as ctg
+
+    from .c05 import check_tree
+
+    net = spec["net"]
+    inputs = [tuple(t) for t in net["inputs"]]
+    output = tuple(net["output"])
+    sizes = dict(net["sizes"])
+    scratch = os.environ.get("VERIF_SCRATCH")
+    directory = tempfile.mkdtemp(prefix="c14c-", dir=scratch) if spec["directory"] else None
+    viol = []
+    cls = ["kind=hyperc", f"hash={spec['hash_method']}", "disk" if directory else "memory", f"how={spec['how']}"]
+
+    def new_opt():
+        return ctg.ReusableHyperCompressedOptimizer(
+            chi=spec["chi"], methods=["greedy-compressed"], max_repeats=spec["max_repeats"], optlib="random",
+            parallel=False, directory=os.path.join(directory, "cache") if directory else None,
+            hash_method=spec["hash_method"], on_trial_error="raise",
+        )
+
+    def figures(t):
+        return (tuple(map(tuple, t.get_ssa_path())), t.get_default_chi(), round(t.get_score(), 9), t.max_size(), t.peak_size())
+
+    try:
+        ok, opt = guarded(new_opt)
+        if not ok:
+            return Outcome([f"ReusableHyperCompressedOptimizer(...) raised {opt}"], False, cls)
+        ok, t1 = guarded(opt.search, inputs, output, sizes)
+        if not ok:
+            return Outcome([f"first search raised {t1}"], False, cls)
+        check_tree(t1, inputs, output, sizes, viol, "first search")
+        if viol:
+            return Outcome(viol, False, cls)
+        f1 = figures(t1)
+        if f1[1] != spec["chi"]:
+            viol.append(f"the searched tree's default cap is {f1[1]}, the optimizer was built with chi={spec['chi']}")
+        if spec["how"] == "new_object" and directory:
+            ok, opt2 = guarded(new_opt)
+            if not ok:
+                return Outcome([f"a second optimizer object on the directory raised {opt2}"], False, cls)
+        else:
+            opt2 = opt
+        last = opt2.last_opt if opt2 is opt else None
+        ok, t2 = guarded(opt2.search, inputs, output, sizes)
+        if not ok:
+            viol.append(f"second search (the hit) raised {t2}")
+        else:
+            check_tree(t2, inputs, output, sizes, viol, "cache hit")
+            if not viol:
+                f2 = figures(t2)
+                if f2 != f1:
+                    viol.append(
+                        f"the tree served from the cache reports (ssa path, default chi, score, max_size, peak) {f2}, "
+                        f"the tree that was stored for the same query {f1}"
+                    )
+            if opt2 is opt and opt.last_opt is not last:
+                viol.append("a search ran although the very same query is in the cache")
+    finally:
+        if directory:
+            shutil.rmtree(directory, ignore_errors=True)
+    return Outcome(viol, True, cls + ["cache_hit"])
+
+
 def run_case(spec, sub=None):
+    if spec.get("kind") == "hyperc":
+        return run_compressed(spec)
+    return _run_case(spec, sub)
+
+
+def _run_case(spec, sub=None):
     import cotengra as ctg
     from cotengra.pathfinders.path_basic import ReusableRandomGreedyOptimizer
 
